@@ -68,6 +68,7 @@ PROPS["C06"] = dict(
         # the C03 scripts check that ids on the wire are non-zero and distinct among open exchanges and that
         # every id 1..65535 is free again at the end
         dict(name="writer", pkg="c03", run="TestRandom", checks=dict(quick=240, thorough=3000), shards=16, timeout=dict(quick=400, thorough=2400), shrinktime="60s"),
+        dict(name="exhaustedrace", pkg="c06", run="TestExhaustedRace", timeout=600),
     ],
 )
 
@@ -115,6 +116,7 @@ PROPS["C04"] = dict(
         dict(name="hammer", pkg="c04", run="TestHammerOneKey", race=True, shards=dict(quick=2, thorough=8), timeout=dict(quick=300, thorough=1800)),
         dict(name="freshseconds", pkg="c04", run="TestHammerFreshSeconds", shards=dict(quick=2, thorough=8), timeout=dict(quick=300, thorough=1800)),
         dict(name="bigsweep", pkg="c04", run="TestHammerBigSweep", shards=dict(quick=2, thorough=8), timeout=dict(quick=300, thorough=1800)),
+        dict(name="manyentries", pkg="c04", run="TestManyEntries", timeout=600),
     ],
 )
 
@@ -260,6 +262,8 @@ PROPS["C02"] = dict(
         dict(name="random", pkg="c02", run="TestRandom", checks=dict(quick=960, thorough=8000), shards=dict(quick=16, thorough=16),
              timeout=dict(quick=400, thorough=2400), shrinktime="90s"),
         dict(name="stalled", pkg="c02", run="TestStalledSubscriber", shards=2, timeout=dict(quick=300, thorough=900)),
+        # recipients of a topic must not depend on a digest of its name (package c01)
+        dict(name="digest", pkg="c01", run="TestDigestCollisions", timeout=600),
     ],
 )
 
@@ -361,6 +365,7 @@ PROPS["C17"] = dict(
         dict(name="regress", pkg="c17", run="TestRegress", timeout=300),
         dict(name="random", pkg="c17", run="TestRandom", checks=dict(quick=1280, thorough=12000), shards=16, timeout=dict(quick=400, thorough=2400), shrinktime="90s"),
         dict(name="nodefail", pkg="c17", run="TestNodeFailure", checks=dict(quick=32, thorough=600), shards=16, timeout=dict(quick=400, thorough=2400), shrinktime="120s"),
+        dict(name="digest", pkg="c17", run="TestDigestCollisionsAcrossTenants", timeout=600),
     ],
 )
 
@@ -433,6 +438,8 @@ PROPS["C03"] = dict(
         dict(name="regress", pkg="c03", run="TestRegress", timeout=300),
         dict(name="ticker", pkg="c03", run="TestTickerWiring", timeout=300),
         dict(name="random", pkg="c03", run="TestRandom", checks=dict(quick=640, thorough=6000), shards=16, timeout=dict(quick=400, thorough=2400), shrinktime="90s"),
+        # a table that refuses a re-registration loses the retransmission (package c04)
+        dict(name="manyentries", pkg="c04", run="TestManyEntries", timeout=600),
     ],
 )
 
@@ -586,7 +593,10 @@ PROPS["C20"] = dict(
         dict(name="hammer", pkg="c04", run="TestHammerOneKey", race=True, shards=dict(quick=2, thorough=8), timeout=dict(quick=300, thorough=1800)),
         dict(name="freshseconds", pkg="c04", run="TestHammerFreshSeconds", shards=dict(quick=2, thorough=8), timeout=dict(quick=300, thorough=1800)),
         dict(name="bigsweep", pkg="c04", run="TestHammerBigSweep", shards=dict(quick=2, thorough=8), timeout=dict(quick=300, thorough=1800)),
+        dict(name="manyentries", pkg="c04", run="TestManyEntries", timeout=600),
         # same key from several goroutines, where the outcome is still schedule independent (no race detector: the window is what matters)
         dict(name="sharedkey", pkg="c20", run="TestSharedKey", shards=dict(quick=5, thorough=10), timeout=dict(quick=300, thorough=1800)),
+        # identifiers on the wire while sessions vanish under the writer (package c03)
+        dict(name="writer", pkg="c03", run="TestRandom", checks=dict(quick=320, thorough=3000), shards=16, timeout=dict(quick=400, thorough=2400), shrinktime="60s"),
     ],
 )
